@@ -282,6 +282,22 @@ def check_literal_reader(ctx, rid, parser_regex, token_variant, groups, key):
             else:
                 shapes.append(g)
                 ctx.ok(rid, '%s: value = parse::<f64>(text(%s) - thousands, decimal -> ".")%s' % (fn_key(b.path), g, ' * suffix' if factor is not None else ''), 'shape', site=s['loc'])
+                # acceptance: once the regex matched, the literal is turned down only when that parse fails - any other
+                # decision taken on the matched text rejects literals the convention allows (or that the converter writes)
+                from .facts import implied, norm_cond
+                blk = [k for k in b.normal_blocks if s in b.blocks[k]['stmts']][0]
+                atoms = []
+                for d, v in list(conds) + [(d, v) for (_, d, v) in b.conditions(blk)]:
+                    atoms += implied(b, *norm_cond(d, v))
+                seen_t = set()
+                for d, v in atoms:
+                    t = render(d)
+                    if t in seen_t:
+                        continue
+                    seen_t.add(t)
+                    if ('"%s"' % g) in t and not re.match(r'discr\((Result::ok\()?str::parse|discr\((Option::unwrap\()?Captures::name\(|discr\(phi', t):
+                        ctx.finding(rid, '%s/extra-acceptance-test' % key, '%s: the matched text of group %s is additionally tested by %s before it becomes a value; only a failing f64 parse may reject a matched literal' % (
+                            fn_key(b.path), g, t[:140]), site=s['loc'])
     if not n:
         raise AnchorLost('%s: no decimal value alternative found' % fn_key(b.path))
     return shapes
